@@ -56,11 +56,26 @@ def run (env : Env) (rest : String) : String :=
       let (st0, evs0) := Modes.init cf (toInt! w) (toInt! h)
       let (st, out, _) := ops.foldl (fun (acc : MState × Array String × Nat) op =>
         let (st, out, i) := acc
-        match parseOp op with
-        | some mop =>
-          let (st', evs) := Modes.step cf st mop
-          (st', emit out (toString i) evs, i + 1)
-        | none => (st, out, i + 1)) (st0, emit #[] "i" evs0, 0)
+        -- `ZN <op>` / `QN <op>`: the application's call <op> lands during the Suspend / Fini, after the loops were stopped and
+        -- before the terminal is restored: for the model the history `Z ; <op>` (what the op writes, if anything, belongs to
+        -- the same item of the reply).  When the screen is not running the Suspend / Fini does nothing and the call is not made.
+        match words op with
+        | k :: inner =>
+          if (k == "ZN" || k == "QN") && !inner.isEmpty then
+            let outer : MOp := if k == "ZN" then .suspend else .fini
+            let (st1, evs1) := Modes.step cf st outer
+            match (if st.running then parseOp (" ".intercalate inner) else none) with
+            | some mop =>
+              let (st2, evs2) := Modes.step cf st1 mop
+              (st2, emit out (toString i) (evs1 ++ evs2), i + 1)
+            | none => (st1, emit out (toString i) evs1, i + 1)
+          else
+            match parseOp op with
+            | some mop =>
+              let (st', evs) := Modes.step cf st mop
+              (st', emit out (toString i) evs, i + 1)
+            | none => (st, out, i + 1)
+        | [] => (st, out, i + 1)) (st0, emit #[] "i" evs0, 0)
       let (_, evsz) := Modes.step cf st .fini
       " ".intercalate (emit out "z" evsz).toList
   | _ => "bad-line"
